@@ -207,6 +207,8 @@ SPECS["C01"] = dict(
         "Woodpile.Props.C01W.encWorld_abs_partial",
         "Woodpile.Props.C01W.enc_world_output_partial",
         "Woodpile.Props.C01W.world_roundtrip_partial",
+        "Woodpile.Props.C01W.dec_world_output_partial",
+        "Woodpile.Props.C01W.world_roundtrip_both_partial",
     ],
     families=[dict(name="hcobs_enc", quick=8000, thorough=200000, search=40000), dict(name="hcobs_dec", quick=8000, thorough=200000, search=40000)],
     vtags=["C01"],
